@@ -13,7 +13,8 @@ decoder: no path reaches `return false` unless it passed a store of a non-OK con
 member, or the fact `run_remaining <= 0` holds there. The fact comes from branch edges on the path
 (`run_remaining <= 0` true, `> 0` false, `== 0` true, ...) or from the call sites (every call of the
 function sits where the fact holds); it dies when run_remaining is assigned or the decoder is handed
-to another function."""
+to another function. A false return that merely passes on the false return of another refill step
+(`if (!load_value(dec)) return false;`) is covered by that step's own obligations."""
 from ..facts import src
 from ..util import is_assign
 from .flow import describe_path
@@ -56,7 +57,7 @@ def _edge_fact(cond, truth, field):
     return None
 
 
-def _search(fn, targets, field, status_field, rec_param_decls, entry_fact, own_name=None):
+def _search(fn, targets, field, status_field, rec_param_decls, entry_fact, refill_names=()):
     """Paths from the entry to a node of `targets` that pass no error store and arrive without the fact.
     Returns {target node id: block path}."""
     cfg = fn.cfg
@@ -93,6 +94,13 @@ def _search(fn, targets, field, status_field, rec_param_decls, entry_fact, own_n
                 continue
             f2 = fact
             if B.cond is not None and B.tk != "SwitchStmt" and len(B.succs) == 2:
+                c_ = B.cond.strip_casts()
+                neg_ = False
+                while c_ is not None and c_.k == "UnaryOperator" and c_.op == "!":
+                    neg_ = not neg_
+                    c_ = c_.c[0].strip_casts()
+                if c_ is not None and c_.k == "CallExpr" and c_.callee in refill_names and (si == 0) == neg_:
+                    continue        # another refill step returned false: its own obligations account for that
                 ef = _edge_fact(B.cond, si == 0, field)
                 if ef is not None:
                     f2 = ef
@@ -128,7 +136,7 @@ def check(ctx, relfile, record, field="run_remaining", status_field="status", ru
                 entry = False
         if sites == 0:
             entry = False
-        bad = _search(f, falses, field, status_field, decls, entry)
+        bad = _search(f, falses, field, status_field, decls, entry, set(x[0].name for x in refills) - {f.name})
         for r in falses:
             n += 1
             key = "%s|%s:%s|L%d" % (key_prefix, relfile, f.name, sorted(x.i for x in falses).index(r.i))
